@@ -790,6 +790,19 @@ def _():
     return out
 
 
+@fragment("Lattice", "containers_text")
+def _():
+    """CorrelationResult / PointSelection / Match plumbing (defaults of the optional arrays, selectors, derived objects, the
+    invalid match): text only"""
+    out = ""
+    for key, name in (("corrresult_init_body", "CorrelationResult.__init__"), ("pointsel_init_body", "PointSelection.__init__"),
+                      ("pointsel_new_selector_body", "PointSelection.new_selector"), ("pointsel_derive_body", "PointSelection.derive"),
+                      ("match_invalid_body", "Match.invalid"), ("match_derive_body", "Match.derive"),
+                      ("match_from_selection_body", "Match.from_point_selection")):
+        out += _fp(key, " ; ".join(_stmt_texts(find_def(GM, name))))
+    return out
+
+
 @fragment("Lattice", "transformation")
 def _():
     out = ""
@@ -1051,6 +1064,16 @@ def _():
     fn = find_def(CC, "process_frames_full")
     out += _fp("full_frame_buf_alloc", ast.unparse(find_assign(fn, "frame_buf").value))
     out += _fp("full_buf_count", ast.unparse(find_assign(fn, "buf_count").value))
+    return out
+
+
+@fragment("Eval", "wrappers_text")
+def _():
+    """the batch helpers as they are written: everything around the per-frame calls (peak list handling, buffer allocation, loop)
+    is glue the model takes for granted"""
+    out = ""
+    for nm in ("process_frames_fast", "process_frames_full"):
+        out += _fp(f"{nm[15:]}_wrapper_body", " ; ".join(_stmt_texts(find_def(CC, nm))))
     return out
 
 
